@@ -38,9 +38,10 @@ import (
 )
 
 var (
-	noCacheReg = regexp.MustCompile(`no-cache|no-store|private`)
-	sMaxAgeReg = regexp.MustCompile(`s-maxage=(\d+)`)
-	maxAgeReg  = regexp.MustCompile(`max-age=(\d+)`)
+	// cache-control的指令不区分大小写
+	noCacheReg = regexp.MustCompile(`(?i)no-cache|no-store|private`)
+	sMaxAgeReg = regexp.MustCompile(`(?i)s-maxage=(\d+)`)
+	maxAgeReg  = regexp.MustCompile(`(?i)max-age=(\d+)`)
 )
 
 // 根据Cache-Control的信息，获取s-maxage 或者max-age的值
